@@ -52,6 +52,7 @@ class T3TSilicon(object):
         self.state_changes = 0
         self.write_log = []     # first block number of every accepted write command
         self.write_blocks = []  # all block numbers per accepted write command
+        self.write_units = []
         self.cmd_log = []
         self.active = False
         self.system = None
@@ -183,6 +184,7 @@ class T3TSilicon(object):
             self.state_changes += 1
             self.write_log.append(nums[0])
             self.write_blocks.append(list(nums))
+            self.write_units.extend((16 * n, 16) for n in nums)
             return self._frame(0x09, b"\x00\x00")
         if code == 0x04:
             return self._frame(0x05, b"\x00")
